@@ -46,10 +46,18 @@ def run_history(ops):
     deferred_snapshot = dict(P._DEFERRED_DISPATCH_BY_NAME)
     out = []
     req = []
+    shared = {}      # one predicate *object* per q, registered again and again by 'rs' (a second registration must not replace the first)
     try:
         for i, op in enumerate(ops):
             k = op[0]
-            if k == 'rc':
+            if k == 'rs':
+                pid = 100 + i
+                q = op[1]
+                if q not in shared:
+                    shared[q] = lambda v, _q=q: _q in getattr(v, '_acc', ())
+                pp.register_pretty(predicate=shared[q])(lambda v, ctx, _t='P%d' % pid: _t)
+                req.append('(rp %d %d)' % (q, pid))
+            elif k == 'rc':
                 pid = 100 + i
                 pp.register_pretty(lat[op[1]])(lambda v, ctx, _t='P%d' % pid: _t)
                 req.append('(rc %d %d)' % (op[1], pid))
@@ -105,7 +113,7 @@ def spec_trace(ops):
         k = op[0]
         if k in ('rc', 'rn'):
             latest[op[1]] = 100 + i
-        elif k == 'rp':
+        elif k in ('rp', 'rs'):
             preds.append((op[1], 100 + i))
         elif k == 'pr':
             chosen = None
@@ -124,7 +132,7 @@ def spec_trace(ops):
     return out
 
 
-ALPHABET = ([('rc', c) for c in (1, 2, 3)] + [('rn', c) for c in (1, 2, 3)] + [('rp', 7)] +
+ALPHABET = ([('rc', c) for c in (1, 2, 3)] + [('rn', c) for c in (1, 2, 3)] + [('rp', 7), ('rs', 7)] +
             [('pr', c, acc) for c, acc in ((1, ()), (2, (7,)), (4, ()), (6, (7,)), (5, (7,)))] +
             [('q', c, fl) for c in (2, 4) for fl in ((1, 1, 1), (1, 1, 0), (0, 1, 0), (1, 0, 0), (0, 0, 0), (1, 0, 1))])
 
